@@ -6,11 +6,20 @@ use std::ptr::{slice_from_raw_parts_mut, NonNull};
 
 use crate::chars::Char;
 
+#[cfg(not(nucleo_verif_small))]
 const MAX_MATRIX_SIZE: usize = 100 * 1024; // 100*1024 = 100KB
+#[cfg(nucleo_verif_small)]
+const MAX_MATRIX_SIZE: usize = 64;
 
 // these two aren't hard maxima, instead we simply allow whatever will fit into memory
+#[cfg(not(nucleo_verif_small))]
 const MAX_HAYSTACK_LEN: usize = 2048; // 64KB
+#[cfg(not(nucleo_verif_small))]
 const MAX_NEEDLE_LEN: usize = 2048; // 64KB
+#[cfg(nucleo_verif_small)]
+const MAX_HAYSTACK_LEN: usize = 16;
+#[cfg(nucleo_verif_small)]
+const MAX_NEEDLE_LEN: usize = 16;
 
 struct MatrixLayout<C: Char> {
     haystack_len: usize,
@@ -188,6 +197,14 @@ impl MatrixSlab {
                 matrix_cells: &mut *matrix_cells,
             })
         }
+    }
+}
+
+// verification hook: lets in-crate harnesses start from an arbitrary scratch pre-state
+#[cfg(nucleo_verif)]
+impl MatrixSlab {
+    pub(crate) fn verif_raw(&mut self) -> (*mut u8, usize) {
+        (self.0.as_ptr(), size_of::<MatcherData>())
     }
 }
 
